@@ -240,7 +240,7 @@ int main(void) {
 ''',
     # ---- the descriptor table is shared with libmcount (pipe to uftrace, log stream, shared-memory files): everything the program
     # does to ITS descriptors - 0, 1, 2 and the ones it opened - must have the native result (return value, errno, lowest-free rule
-    # below 3, where the data goes); a closefrom-style loop also hits libmcount's own descriptors, whose results are not digested
+    # where the data goes); a closefrom-style loop also hits libmcount's own descriptors, whose results are not digested
     "fds": r'''#include <fcntl.h>
 #include <sys/stat.h>
 NOINL long leaf(long x) { return x * 3 + 1; }
@@ -248,7 +248,7 @@ static void rv(long r) { mix((uint64_t)r); mix(r < 0 ? (uint64_t)errno : 0); }
 int main(void) {
   char path[512]; struct stat st; int keep0, keep1, keep2, a, b, i;
   snprintf(path, sizeof path, "%s.err", getenv("VERIF_OUT") ? getenv("VERIF_OUT") : "c01fds");
-  keep0 = dup(0); keep1 = dup(1); keep2 = dup(2); mix(keep0 > 2 && keep1 > keep0 && keep2 > keep1);
+  keep0 = dup(0); keep1 = dup(1); keep2 = dup(2); rv(keep0); rv(keep1); rv(keep2);      /* 3, 4, 5: lowest-free rule (fix C01-10) */
   /* the redirect idiom: close(2); open() */
   rv(close(2)); leaf(1);
   rv(open(path, O_WRONLY | O_CREAT | O_TRUNC, 0600));
@@ -267,7 +267,7 @@ int main(void) {
   rv(fcntl(0, F_SETFD, FD_CLOEXEC)); rv(fcntl(0, F_GETFD)); rv(fcntl(0, F_SETFD, 0)); rv(fcntl(0, F_GETFD));
   rv(close(1)); rv(fcntl(keep1, F_DUPFD, 0)); rv(close(-1));
   /* closefrom(3)-style loop: only the results for OUR descriptors count */
-  a = open("/dev/null", O_RDONLY); b = dup(a); mix(a > 2 && b > a);
+  a = open("/dev/null", O_RDONLY); b = dup(a); rv(a); rv(b);
   for (i = 3; i < 64; i++) { int r = close(i); if (i == a || i == b || i == keep0 || i == keep1 || i == keep2) rv(r); }
   rv(fstat(a, &st)); rv(fstat(keep2, &st)); rv(close(b));
   for (i = 0; i < 3; i++) rv(fcntl(i, F_GETFD));
